@@ -8,7 +8,9 @@
 
 Committed reference copies describing the repaired code: lean/DfolsVerif/Spec/*.lean, tied to Gen by
 `gen_eq_spec` theorems (DfolsVerif/Proofs/GenSpec.lean).  `python harness/gen.py --write-spec` rewrites the Spec
-files from the current $DFOLS_REPO (only to be used when a `fix:` commit deliberately changed a table).
+files and harness/spec_tables.json (the same reference in machine-readable form: the documented ranges / constants the
+C07 failing-input search uses as its oracle) from the current $DFOLS_REPO — only to be used when a `fix:` commit
+deliberately changed a table.
 
 regenerate() never raises on unparsable / unexpected source: it records ctx.broke("gen:<table>", detail) and leaves
 the previous Gen file in place.
